@@ -5,6 +5,7 @@ import (
 	"go/constant"
 	"go/types"
 	"sort"
+	"strconv"
 	"strings"
 
 	"golang.org/x/tools/go/ssa"
@@ -622,6 +623,16 @@ func (v *VC) evCall(x SCall, env *SpecEnv) TV {
 }
 
 func (v *VC) evMethod(x SMethod, env *SpecEnv) TV {
+	// M#k selects the k-th result of a multi-result pure function
+	resIdx := 0
+	if i := strings.Index(x.Name, "#"); i > 0 {
+		n, err := strconv.Atoi(x.Name[i+1:])
+		if err != nil {
+			specPanic("bad result selector in %s", x.Name)
+		}
+		resIdx = n
+		x.Name = x.Name[:i]
+	}
 	// pkg.F(args): a package-level function with a pure contract
 	if id, ok := x.X.(SIdent); ok {
 		_, isBound := env.bound[id.Name]
@@ -649,7 +660,7 @@ func (v *VC) evMethod(x SMethod, env *SpecEnv) TV {
 					args = append(args, v.ev(a, env).T)
 				}
 				r := v.ufApp("uf_"+sanitize(fnKey(f)), f.Signature, "", args)
-				return TV{T: r[0], Typ: f.Signature.Results().At(0).Type()}
+				return TV{T: r[resIdx], Typ: f.Signature.Results().At(resIdx).Type()}
 			}
 		}
 	}
@@ -681,7 +692,7 @@ func (v *VC) evMethod(x SMethod, env *SpecEnv) TV {
 		v.note("pure interface method (result is a function of receiver and arguments): %s", key)
 		r := v.ufApp("uf_"+sanitize(key), sig, "Iface", append([]string{recv.T}, args...))
 		v.ufRangeAxiom("uf_"+sanitize(key), sig, "Iface")
-		return TV{T: r[0], Typ: sig.Results().At(0).Type()}
+		return TV{T: r[resIdx], Typ: sig.Results().At(resIdx).Type()}
 	}
 	fnObj := sel.Obj().(*types.Func)
 	f := v.P.prog.FuncValue(fnObj)
@@ -689,7 +700,7 @@ func (v *VC) evMethod(x SMethod, env *SpecEnv) TV {
 		if ct := v.P.contractFor(f); ct != nil && ct.Pure {
 			recvSort := v.sortOf(recv.Typ)
 			r := v.ufApp("uf_"+sanitize(fnKey(f)), sig, recvSort, append([]string{recv.T}, args...))
-			return TV{T: r[0], Typ: sig.Results().At(0).Type()}
+			return TV{T: r[resIdx], Typ: sig.Results().At(resIdx).Type()}
 		}
 	}
 	specPanic("method not pure: %s.%s", recv.Typ.String(), x.Name)
